@@ -450,6 +450,11 @@ class XYDataSet:
         xdata = kwargs.pop("xdata", args[0] if len(args) >= 2 else None)
         ydata = kwargs.pop("ydata", args[1] if len(args) >= 2 else None)
 
+        # check the uncertainties of both data sets before any existing array is modified
+        for data, error in ((xdata, xerr), (ydata, yerr)):
+            if isinstance(data, ExperimentalValueArray) and error is not None:
+                _get_error_array_helper(data, error, None)
+
         xdata = XYDataSet.__wrap_data(xdata, xerr, name=xname, unit=xunit)
         ydata = XYDataSet.__wrap_data(ydata, yerr, name=yname, unit=yunit)
 
